@@ -729,3 +729,49 @@ def c17_scale(ctx, repo):
 ALL_C07 = [c07_subsetter]
 ALL_C08 = [c08_instancer]
 ALL_C17 = [c17_reorder, c17_scale]
+
+
+# ---------------------------------------------------------------------------
+# C07: index fields that refer into a list the subsetter shrinks are renumbered
+# ---------------------------------------------------------------------------
+
+# field name -> what it indexes (OpenType spec); all of these lists are pruned by the subsetter
+INDEX_FIELDS = {
+    "LookupListIndex": "LookupList.Lookup",
+    "FeatureIndex": "FeatureList.FeatureRecord",
+    "ReqFeatureIndex": "FeatureList.FeatureRecord",
+    "MarkFilteringSet": "GDEF.MarkGlyphSetsDef.Coverage",
+    "PaletteIndex": "CPAL palette entries",
+}
+
+
+def c07_index_remap(ctx, repo):
+    ctx.rule("REMAP-IDX", "every schema field that indexes into a list the subsetter prunes (lookups, features, mark glyph sets, palette entries) is re-assigned by a subsetter method of the class that owns it (or of the rule/record container that iterates it)", floor=8)
+    sc = load_schema(repo)
+    inj = subset_injections(repo)
+    # all attribute stores per injected function
+    stores = {}  # class id -> {attr}
+    anystore = {}
+    for cid, ms in inj.items():
+        for name, f in ms.items():
+            for n in ast.walk(f.node):
+                if isinstance(n, ast.Assign):
+                    # a renumbering store computes its value (index(), map lookup, comprehension); constants (None, 65535) are removals
+                    if isinstance(n.value, ast.Constant):
+                        continue
+                    for t in n.targets:
+                        if isinstance(t, ast.Attribute):
+                            stores.setdefault(cid, set()).add(t.attr)
+                            anystore.setdefault(t.attr, set()).add(f"{cid}.{name}")
+    owners = {}
+    for root in ("GSUB", "GPOS", "GDEF", "COLR"):
+        for path, f in sc.reach_fields(root, root):
+            if f.name in INDEX_FIELDS:
+                owners.setdefault(f.name, set()).add(_class_of_full(f.table))
+    for fld, classes in sorted(owners.items()):
+        for cname in sorted(classes):
+            direct = fld in stores.get("ot:" + cname, set())
+            # records without their own methods (LookupRecord, LayerRecord, FeatureTableSubstitutionRecord) are renumbered by the container that iterates them
+            via = sorted(anystore.get(fld, ()))
+            ok = direct or bool(via)
+            ctx.ob("REMAP-IDX", "subset/__init__.py:<module>", f"{cname}.{fld} (index into {INDEX_FIELDS[fld]}) is renumbered" + (" by its own subset method" if direct else f" by {via[:2]}"), ok, "" if ok else "index field is never rewritten although the list it points into is pruned: it refers to the wrong or a removed entry")
